@@ -164,7 +164,10 @@ func (g *globalTaint) origin(info *types.Info, e ast.Expr) string {
 			return objQual(o) // pkg.Global
 		}
 	case *ast.StarExpr:
-		// *p where p aliases a global: a copy; its pointer-like fields are handled at the selector
+		// **p: the pointer stored where p points still aliases; *p of a struct pointer is a (shallow) copy, handled below
+		if t != nil && pointerLikeT(t) {
+			return g.origin(info, x.X)
+		}
 		return ""
 	case *ast.CallExpr:
 		if fn, _ := typeutil.Callee(info, x).(*types.Func); fn != nil {
@@ -227,6 +230,24 @@ func RunGlobalWrites(c *Ctx, pkgs []string) {
 				case *ast.AssignStmt:
 					if len(s.Lhs) == len(s.Rhs) {
 						for i, l := range s.Lhs {
+							// a shallow copy of a struct reachable from a package-level variable shares its pointer-like fields
+							if st, ok := unparen(s.Rhs[i]).(*ast.StarExpr); ok {
+								if porg := g.origin(info, st.X); porg != "" {
+									if n := namedOf(info.TypeOf(s.Rhs[i])); n != nil {
+										if stt, ok := n.Underlying().(*types.Struct); ok {
+											for fi2 := 0; fi2 < stt.NumFields(); fi2++ {
+												if pointerLikeT(stt.Field(fi2).Type()) {
+													fk := typeKey(n) + "." + stt.Field(fi2).Name()
+													if _, ok := g.fields[fk]; !ok {
+														g.fields[fk] = porg
+														g.changed = true
+													}
+												}
+											}
+										}
+									}
+								}
+							}
 							org := g.origin(info, s.Rhs[i])
 							if org == "" {
 								continue
@@ -298,6 +319,14 @@ func RunGlobalWrites(c *Ctx, pkgs []string) {
 						}
 						if org := g.origin(info, a); org != "" {
 							g.setVar(callee.Sig.Params().At(i), org)
+						}
+					}
+					// the receiver is an argument too
+					if recv := callee.Sig.Recv(); recv != nil {
+						if sel, ok := unparen(s.Fun).(*ast.SelectorExpr); ok {
+							if org := g.origin(info, sel.X); org != "" && pointerLikeT(recv.Type()) {
+								g.setVar(recv, org)
+							}
 						}
 					}
 				}
